@@ -146,6 +146,11 @@ func (p *FSM) Open(_ <-chan struct{}) (uint64, error) {
 	var dbdir string
 	if rp.IsNewRun(p.fs, p.dirname) {
 		dbdir = filepath.Join(p.dirname, randomDir)
+		// The DB directory must be durable before `current` durably points to it, otherwise a crash
+		// leaves `current` naming a directory that does not exist and the table cannot be reopened.
+		if err := rp.CreateNodeDataDir(p.fs, dbdir); err != nil {
+			return 0, err
+		}
 		if err := rp.SaveCurrentDBDirName(p.fs, p.dirname, randomDir); err != nil {
 			return 0, err
 		}
